@@ -379,6 +379,44 @@ impl C07 {
             self.forked(w, &claim_op(&v, None), s.idx, rep);
             break;
         }
+        self.ledger = saved.clone();
+        w.restore(&snap);
+        // ---- part 3: a farm claimed down to exactly zero that is still stored, and a late joiner
+        // who carries a claim cursor (from another LP token) older than that farm's end
+        let late = match s.fpost.positions.values().filter(|p| p.open).map(|p| p.receiver.clone()).collect::<Vec<_>>().choose(&mut self.rng) {
+            Some(a) => a.clone(),
+            None => {
+                self.ledger = saved;
+                return;
+            }
+        };
+        let staker = w.users.iter().find(|x| **x != late).cloned().unwrap_or(owner.clone());
+        let creator = w.users.iter().find(|x| **x != late && **x != staker).cloned().unwrap_or(owner.clone());
+        let name = format!("sp{}", s.idx);
+        let pid = format!("o.{name}");
+        let mut ok = self.forked(w, &crate::wpool::create_pool_op(w, &staker, &["uom", "uusdt"], mantra_dex_std::pool_manager::PoolType::ConstantProduct, crate::wpool::pool_fee(0, 30, 0, &[]), Some(&name)), s.idx, rep);
+        ok &= self.forked(w, &crate::wpool::provide_op(&staker, &pid, vec![coin(5_000_000_000, "uom"), coin(1_000_000_000, "uusdt")], None, None, None, None, None), s.idx, rep);
+        ok &= self.forked(w, &crate::wpool::provide_op(&late, &pid, vec![coin(50_000_000, "uom"), coin(10_000_000, "uusdt")], None, None, None, None, None), s.idx, rep);
+        let lp = w.lp_denom(&pid);
+        // the late joiner's cursor: a claim now, on whatever it holds elsewhere
+        self.forked(w, &claim_op(&late, None), s.idx, rep);
+        ok &= self.forked(w, &pos_op(&staker, PositionAction::Create { identifier: None, unlocking_duration: 86_400, receiver: None }, vec![coin(1_000_000, lp.clone())]), s.idx, rep);
+        let k = self.rng.gen_range(2..5u64);
+        let reward = coin(self.rng.gen_range(500..5_000u128) * k as u128, "uusdc");
+        ok &= self.forked(w, &farm_op(&creator, FarmAction::Create { params: FarmParams { lp_denom: lp.clone(), start_epoch: Some(cur + 1), preliminary_end_epoch: Some(cur + 1 + k), curve: None, farm_asset: reward.clone(), farm_identifier: Some(format!("sp{}", s.idx)) } }, farm_funds(&reward, &fee)), s.idx, rep);
+        if ok {
+            for _ in 0..(k + 2) {
+                self.forked(w, &Op::Advance { secs: day }, s.idx, rep);
+            }
+            self.forked(w, &claim_op(&staker, None), s.idx, rep);
+            let spent = fobserve(w).farms.get(&format!("m-sp{}", s.idx)).map(|x| x.claimed_amount == x.farm_asset.amount).unwrap_or(false);
+            let joined = self.forked(w, &pos_op(&late, PositionAction::Create { identifier: None, unlocking_duration: 86_400, receiver: None }, vec![coin(1_000, lp.clone())]), s.idx, rep);
+            self.forked(w, &Op::Advance { secs: day }, s.idx, rep);
+            self.forked(w, &claim_op(&late, None), s.idx, rep);
+            rep.count("claim_possible", &format!("long_history_probe: late joiner with an old cursor claims next to a {} farm (joined: {joined})", if spent { "fully claimed, still stored" } else { "not fully claimed" }));
+        } else {
+            rep.count("claim_possible", "long_history_probe: spent-farm part could not be set up");
+        }
         self.ledger = saved;
         w.restore(&snap);
     }
